@@ -44,7 +44,49 @@ fn exported_rules(g: &Grammar) -> Vec<String> {
         .collect()
 }
 
+/// One variant per process: a generator that keeps state from one grammar to the next must not be able to spoil the
+/// corpus (that is C16's business, and C16 can only report it if the harness builds).  The build script runs itself
+/// once per variant: grammar text on stdin, first line of the answer = exported rules, rest = generated code.
+fn child() {
+    use std::io::Read;
+    let mut vtext = String::new();
+    std::io::stdin().read_to_string(&mut vtext).unwrap();
+    let vname = env::var("SIMCORPUS_CHILD").unwrap();
+    let grammar = Grammar::from_str(&vtext).unwrap_or_else(|e| panic!("corpus grammar {vname} does not parse: {e:?}"));
+    let mut settings = CodegenSettings::default();
+    if env::var("SIMCORPUS_CTX").is_ok() {
+        settings.set_user_context_type("crate::simrt::Ctx");
+    }
+    let code = grammar
+        .generate_code(&settings)
+        .unwrap_or_else(|e| panic!("corpus grammar {vname}: codegen failed: {e:?}"));
+    println!("{}", exported_rules(&grammar).join(","));
+    print!("{code}");
+}
+
+fn generate_in_child(vname: &str, vtext: &str, ctx: bool) -> (Vec<String>, String) {
+    use std::io::Write as _;
+    use std::process::{Command, Stdio};
+    let mut cmd = Command::new(env::current_exe().unwrap());
+    cmd.env("SIMCORPUS_CHILD", vname).stdin(Stdio::piped()).stdout(Stdio::piped()).stderr(Stdio::inherit());
+    if ctx {
+        cmd.env("SIMCORPUS_CTX", "1");
+    }
+    let mut ch = cmd.spawn().expect("re-run the build script for one variant");
+    ch.stdin.take().unwrap().write_all(vtext.as_bytes()).unwrap();
+    let out = ch.wait_with_output().unwrap();
+    if !out.status.success() {
+        panic!("corpus grammar {vname}: the generator failed in a process of its own");
+    }
+    let s = String::from_utf8(out.stdout).unwrap();
+    let (first, code) = s.split_once('\n').unwrap();
+    (first.split(',').filter(|x| !x.is_empty()).map(|x| x.to_string()).collect(), code.to_string())
+}
+
 fn main() {
+    if env::var("SIMCORPUS_CHILD").is_ok() {
+        return child();
+    }
     let manifest_dir = PathBuf::from(env::var("CARGO_MANIFEST_DIR").unwrap());
     let corpus_dir = manifest_dir.join("../../corpus").canonicalize().unwrap();
     let out_dir = PathBuf::from(env::var("OUT_DIR").unwrap());
@@ -76,16 +118,8 @@ fn main() {
             }
             let vname = format!("{name}_m{mask}");
             let vtext = variant_text(&text, &rules, mask);
-            let grammar = Grammar::from_str(&vtext)
-                .unwrap_or_else(|e| panic!("corpus grammar {vname} does not parse: {e:?}"));
-            let mut settings = CodegenSettings::default();
-            if ctx {
-                settings.set_user_context_type("crate::simrt::Ctx");
-            }
-            let code = grammar
-                .generate_code(&settings)
-                .unwrap_or_else(|e| panic!("corpus grammar {vname}: codegen failed: {e:?}"));
-            fs::write(out_dir.join(format!("{vname}.rs")), code.to_string()).unwrap();
+            let (exported, code) = generate_in_child(&vname, &vtext, ctx);
+            fs::write(out_dir.join(format!("{vname}.rs")), code).unwrap();
             fs::write(out_dir.join(format!("{vname}.ebnf")), &vtext).unwrap();
 
             writeln!(mods, "#[allow(clippy::all, non_camel_case_types, unused)]\npub mod {vname} {{").unwrap();
@@ -99,7 +133,6 @@ fn main() {
             }
             writeln!(mods, "    include!(concat!(env!(\"OUT_DIR\"), \"/{vname}.rs\"));\n}}").unwrap();
 
-            let exported = exported_rules(&grammar);
             for r in &exported {
                 if ctx {
                     writeln!(
